@@ -21,6 +21,7 @@ import (
 	_ "verif/harness/c11"
 	_ "verif/harness/c12"
 	_ "verif/harness/c13"
+	c14h "verif/harness/c14"
 	c15h "verif/harness/c15"
 	_ "verif/harness/c17"
 	_ "verif/harness/c18"
@@ -30,7 +31,7 @@ import (
 )
 
 func init() {
-	h.Register("C14", func(tier string) ([]*h.Scn, []*h.Plain) { return nil, c14.Plains(tier) })
+	h.Register("C14", func(tier string) ([]*h.Scn, []*h.Plain) { return c14h.Scns(tier), c14.Plains(tier) })
 	h.Register("C15", func(tier string) ([]*h.Scn, []*h.Plain) { return c15h.Scns(tier), c15.Plains(tier) })
 	h.Register("C19", func(tier string) ([]*h.Scn, []*h.Plain) { return c19h.Scns(tier), c19.Plains(tier) })
 	h.Register("C16", func(tier string) ([]*h.Scn, []*h.Plain) { return nil, c16.Plains(tier) })
